@@ -1,4 +1,120 @@
-From CelloV Require Import Generated StringModel.
-Theorem placeholder : murmur64 nil = murmur64 nil.
-Proof. reflexivity. Qed.
-Print Assumptions placeholder.
+(* Properties_C16.v — String behaves as a C-string value.  Statements only; proofs in StringProofs.v.
+   c_new / c_step / c_run = the model of src/String.c (StringModel.v) instantiated with the realloc
+   sizes, the memmove count and the NULL check re-extracted from the source (Generated.v).
+   repr b s = "the allocation b starts with the NUL-free characters s followed by a NUL". *)
+From Coq Require Import List Arith NArith ZArith.
+From CelloV Require Import Generated StringModel StringProofs.
+Import ListNotations.
+
+(* every history of assign/concat/append/resize/rem/mem/cmp/eq/len/c_str/hash/print_to from any
+   initial value: same results as the abstract-string specification, never undefined behaviour,
+   and the final allocation holds exactly the specification's string *)
+Theorem C16_history_refines : forall v0 ops, nulfree v0 -> Forall op_ok ops ->
+  exists b0 bf, c_new v0 = Some b0 /\ c_run b0 ops = (fst (spec_run v0 ops), bf) /\
+                repr bf (snd (spec_run v0 ops)).
+Proof. exact c_history_refines. Qed.
+Print Assumptions C16_history_refines.
+
+Example C16_history_refines_nonvacuous :
+  nulfree [97; 98; 99; 98; 99; 97; 98] /\
+  Forall op_ok [ORem [98; 99; 97; 98]; OLen; OMem [99]; OPrint 1 [PLit [120]; PInt (-42)]; OCStr] /\
+  exists b0, c_new [97; 98; 99; 98; 99; 97; 98] = Some b0 /\
+    fst (c_run b0 [ORem [98; 99; 97; 98]; OLen; OMem [99]; OPrint 1 [PLit [120]; PInt (-42)]; OCStr])
+    = [SUnit; SNat 3; SBool true; SNat 5; SChars [97; 120; 45; 52; 50]].
+Proof.
+  split; [repeat constructor; discriminate|]. split; [repeat constructor; discriminate|].
+  eexists. split; vm_compute; reflexivity.
+Qed.
+
+Theorem C16_step_refines : forall b s o, repr b s -> op_ok o ->
+  exists b', c_step b o = (b', snd (spec_step s o)) /\ repr b' (fst (spec_step s o)).
+Proof. exact c_step_refines. Qed.
+Print Assumptions C16_step_refines.
+
+Example C16_step_refines_nonvacuous :
+  repr [Some 97; Some 97; Some 97; Some 0; None; Some 7] [97; 97; 97] /\ op_ok (ORem [97; 97]).
+Proof. split; [split; [repeat constructor; discriminate|eexists; reflexivity]|repeat constructor; discriminate]. Qed.
+
+Theorem C16_no_undefined_behaviour : forall v0 ops, nulfree v0 -> Forall op_ok ops ->
+  exists b0, c_new v0 = Some b0 /\ ~ In SCrash (fst (c_run b0 ops)).
+Proof. exact c_history_no_crash. Qed.
+Print Assumptions C16_no_undefined_behaviour.
+
+(* the terminator lies inside the allocation, everything before it is a defined non-NUL byte *)
+Theorem C16_terminated_inside_allocation : forall b s, repr b s ->
+  length s < length b /\ nth_error b (length s) = Some (Some 0) /\
+  forall i, i < length s -> exists c, nth_error b i = Some (Some c) /\ c <> 0.
+Proof. exact repr_inside. Qed.
+Print Assumptions C16_terminated_inside_allocation.
+
+(* repr is exactly "a C reader of the buffer sees s" *)
+Theorem C16_repr_is_c_str : forall b s, repr b s <-> c_str b = Some s.
+Proof. exact repr_iff_c_str. Qed.
+Print Assumptions C16_repr_is_c_str.
+
+(* the specification's search is strstr: the least offset at which the needle occurs *)
+Theorem C16_first_occurrence : forall v s i,
+  first_occ v s = Some i <-> (occurs v s i /\ forall j, j < i -> ~ occurs v s j).
+Proof. exact first_occ_some. Qed.
+Print Assumptions C16_first_occurrence.
+
+Theorem C16_no_occurrence : forall v s, first_occ v s = None <-> forall i, ~ occurs v s i.
+Proof. exact first_occ_none. Qed.
+Print Assumptions C16_no_occurrence.
+
+Theorem C16_strstr_scan_is_first_occurrence : forall v s, find_sub v s = first_occ v s.
+Proof. exact find_sub_first_occ. Qed.
+Print Assumptions C16_strstr_scan_is_first_occurrence.
+
+(* rem deletes the first occurrence, overlapping later occurrences or not *)
+Theorem C16_rem_deletes_first : forall l v r,
+  (forall j, j < length l -> ~ occurs v (l ++ v ++ r) j) ->
+  spec_step (l ++ v ++ r) (ORem v) = (l ++ r, SUnit).
+Proof. exact spec_rem_first. Qed.
+Print Assumptions C16_rem_deletes_first.
+
+Example C16_rem_deletes_first_overlap :     (* "ababab" - "abab" = "ab" *)
+  spec_step [97; 98; 97; 98; 97; 98] (ORem [97; 98; 97; 98]) = ([97; 98], SUnit).
+Proof. vm_compute. reflexivity. Qed.
+
+Theorem C16_rem_absent_raises : forall v s,
+  (forall i, ~ occurs v s i) -> spec_step s (ORem v) = (s, SRaise SValueError).
+Proof. exact spec_rem_absent. Qed.
+Print Assumptions C16_rem_absent_raises.
+
+Example C16_rem_absent_nonvacuous : forall i, ~ occurs [120] [97; 98; 99] i.
+Proof. apply first_occ_none. vm_compute. reflexivity. Qed.
+
+Theorem C16_mem_is_substring : forall v s,
+  existsb (occurs_at v s) (seq 0 (S (length s))) = true <-> exists i, occurs v s i.
+Proof. exact spec_mem_occurs. Qed.
+Print Assumptions C16_mem_is_substring.
+
+(* cmp is strcmp's order on unsigned bytes; eq is equality *)
+Theorem C16_cmp_eq : forall a b, str_compare a b = Eq <-> a = b.
+Proof. exact str_compare_eq. Qed.
+Print Assumptions C16_cmp_eq.
+
+Theorem C16_cmp_lt : forall a b, str_compare a b = Lt <-> lex_lt a b.
+Proof. exact str_compare_lt. Qed.
+Print Assumptions C16_cmp_lt.
+
+Theorem C16_cmp_antisym : forall a b, str_compare b a = CompOpp (str_compare a b).
+Proof. exact str_compare_antisym. Qed.
+Print Assumptions C16_cmp_antisym.
+
+(* the code before the repair of String_Rem (D6) *)
+Theorem C16_rem_before_repair_refuted :
+  exists s v, nulfree s /\ nulfree v /\
+    exists b', m_rem old_rem_count false (map Some (s ++ [0])) v = (b', SUnit) /\
+               c_str b' <> Some (fst (spec_step s (ORem v))).
+Proof. exact rem_old_refuted_middle. Qed.
+Print Assumptions C16_rem_before_repair_refuted.
+
+Theorem C16_rem_before_repair_crashes :
+  (exists s v, nulfree s /\ nulfree v /\ first_occ v s = Some 0 /\
+     snd (m_rem old_rem_count false (map Some (s ++ [0])) v) = SCrash) /\
+  (exists s v, nulfree s /\ nulfree v /\ first_occ v s = None /\
+     snd (m_rem old_rem_count false (map Some (s ++ [0])) v) = SCrash).
+Proof. exact rem_old_refuted_crash. Qed.
+Print Assumptions C16_rem_before_repair_crashes.
